@@ -24,7 +24,8 @@ BAD_LINES = {
     "short": ["1;2;3\n", "1;2\n", "1\n", "1;2;3;4\n", "1;255;3;0\n", "1;0;1;0;1\n"],
     "empty": ["\n", "", "   \n", ";;;;;\n"],
     "overrange": ["256;0;1;0;0;1\n", "1;256;1;0;0;1\n", "1;0;5;0;0;1\n", "1;0;1;2;0;1\n", "-1;0;1;0;0;1\n"],
-    "alpha": ["a;0;1;0;0;1\n", "1;b;1;0;0;1\n", "1;0;c;0;0;1\n", "1;0;1;d;0;1\n", "1;0;1;0;e;1\n", "invalid\n"],
+    "alpha": ["a;0;1;0;0;1\n", "1;b;1;0;0;1\n", "1;0;c;0;0;1\n", "1;0;1;d;0;1\n", "1;0;1;0;e;1\n", "invalid\n",
+              "1;0;\u00b2;0;0;21.5\n", "1;\u00b3;1;0;0;1\n", "1;0;1;0;\u2460;1\n", "\u0661;0;1;0;0;1\n"],
     "crossfield": ["1;0;3;0;0;57\n", "1;0;4;0;0;\n", "1;255;1;0;0;1\n", "1;255;2;0;0;\n"],
     "float": ["1.0;0;1;0;0;1\n", "1;0.5;1;0;0;1\n", "1;0;1;0;1e3;1\n"],
 }
@@ -175,7 +176,7 @@ def random_history(rnd: random.Random, prop: str, length: int) -> tuple[dict, li
         if r < w[0]:
             ev = dict(k="recv", n=rnd.choice(nodes_pool + [0]), c=255, cmd=0, ack=0, t=rnd.choice([17, 18]), p=rnd.choice(VERSIONS))
         elif r < w[1]:
-            ev = dict(k="recv", n=n, c=c, cmd=0, ack=0, t=rnd.choice([0, 6, 23]), p=rnd.choice(["", "d", "e"]))
+            ev = dict(k="recv", n=n, c=c, cmd=0, ack=0, t=rnd.choice([0, 6, 23, 39, 40, 99, -1]), p=rnd.choice(["", "d", "e", "x;y"]))
         elif r < w[2]:
             ev = dict(k="recv", n=n, c=c, cmd=1, ack=rnd.choice([0, 0, 1]), t=t, p=p)
         elif r < w[3]:
@@ -221,7 +222,7 @@ def random_history(rnd: random.Random, prop: str, length: int) -> tuple[dict, li
                 ev = dict(k="send", n=n, c=255, cmd=4, ack=0, t=rnd.choice([0, 1, 3]), p=p)
             ev["buf"] = rnd.random() < 0.85
         elif r < w[7]:
-            ev = dict(k="reboot", n=n)
+            ev = dict(k="reboot", n=n) if rnd.random() < (0.5 if prop == "C05" else 0.75) else dict(k="cycle")
         else:
             cls = rnd.choice(sorted(BAD_LINES))
             ev = dict(k="recvbad", p=cls, line=rnd.choice(BAD_LINES[cls]))
@@ -265,7 +266,7 @@ def stream_history(rnd: random.Random, length: int) -> tuple[dict, list]:
 # ---------------------------------------------------------------------------------------
 
 PROPS = {
-    "C03": dict(focus={"family", "afterError"}, mc=[("absurd", 2, 3), ("presreq", 2, 3), ("version", 2, 3)],
+    "C03": dict(focus={"family", "afterError"}, mc=[("absurd", 2, 3), ("presreq", 2, 3), ("version", 2, 3), ("ids", 2, 3)],
                 rand=(300, 1500, 40)),
     "C04": dict(focus={"registry", "outcome"}, mc=[("registry", 3, 4)], rand=(300, 2000, 60)),
     "C05": dict(focus={"version", "gate"}, mc=[("version", 3, 4)], rand=(200, 1000, 30)),
